@@ -38,12 +38,18 @@ def check_one(prop: str, tier: str, seed: int, repo: Repo | None = None, quiet=F
                 f"  {rid:<20} instances={v['instances']:<4} floor={v['floor']:<3} "
                 f"exceptions={v['exceptions']} known={v['known_findings']} violations={v['violations']}"
             )
+    by_id: dict[str, list] = {}
     for o, k in res.known:
-        print(f"KNOWN-FINDING: property={prop} {o.rule} {o.construct} ({o.loc}): {k.get('what', '')} [{k.get('id')}]")
+        by_id.setdefault(k.get("id", "?"), []).append((o, k))
+    for fid, items in by_id.items():
+        k = items[0][1]
+        where = "; ".join(f"{o.rule} {o.construct} ({o.loc})" for o, _ in items)
+        print(f"KNOWN-FINDING: property={prop} [{fid}] {k.get('what', '')} -- at: {where}")
     for i, o in enumerate(res.violations):
         rp = write_replay(res, i, o)
         print(f"VIOLATION property={prop} replay={rp}")
         print(f"  {o.loc} {o.rule} {o.construct}: {o.msg}")
+        print(f"  key={o.key}")
     return 1 if res.violations else 0
 
 
